@@ -136,10 +136,9 @@ func showRd(origin string, typ uint16, w rdw) string {
 	return "G" + z.ShowBytes([]byte(strings.Join(w.hexs, "")))
 }
 
-// denote returns the records, or ok=false when some entry has no meaning (no
-// owner to repeat, no TTL to take).
-func denote(origin string, deflt *uint32, es []entry) ([]rec, bool) {
-	st := dstate{origin: origin, deflt: deflt}
+// denoteSt folds the entries over the state; ok=false when some entry has no
+// meaning (no owner to repeat, no TTL to take).
+func denoteSt(st dstate, es []entry) ([]rec, dstate, bool) {
 	var out []rec
 	for _, e := range es {
 		switch e.kind {
@@ -148,7 +147,7 @@ func denote(origin string, deflt *uint32, es []entry) ([]rec, bool) {
 		case 't':
 			v, ok := ttlValue(e.arg)
 			if !ok {
-				return nil, false
+				return nil, st, false
 			}
 			t := uint32(v)
 			st.dollar = &t
@@ -159,13 +158,13 @@ func denote(origin string, deflt *uint32, es []entry) ([]rec, bool) {
 			} else if st.owner != nil {
 				owner = *st.owner
 			} else {
-				return nil, false
+				return nil, st, false
 			}
 			var ttl uint32
 			if e.ttl != nil {
 				v, ok := ttlValue(*e.ttl)
 				if !ok {
-					return nil, false
+					return nil, st, false
 				}
 				ttl = uint32(v)
 				t := ttl
@@ -177,7 +176,7 @@ func denote(origin string, deflt *uint32, es []entry) ([]rec, bool) {
 			} else if st.deflt != nil {
 				ttl = *st.deflt
 			} else {
-				return nil, false
+				return nil, st, false
 			}
 			class := uint16(1)
 			if e.class != nil {
@@ -188,7 +187,12 @@ func denote(origin string, deflt *uint32, es []entry) ([]rec, bool) {
 			out = append(out, rec{owner, e.typ, class, ttl, showRd(st.origin, e.typ, e.rd)})
 		}
 	}
-	return out, true
+	return out, st, true
+}
+
+func denote(origin string, deflt *uint32, es []entry) ([]rec, bool) {
+	r, _, ok := denoteSt(dstate{origin: origin, deflt: deflt}, es)
+	return r, ok
 }
 
 // ---------- encoding for the Coq specification ----------
@@ -238,7 +242,7 @@ func encode(es []entry) string {
 			case 'T':
 				rd = "T" + encItems(e.rd.txt)
 			default:
-				rd = "G" + encItems(e.rd.hexs)
+				rd = "G" + encItems(append([]string{Itoa(len(strings.Join(e.rd.hexs, "")) / 2)}, e.rd.hexs...))
 			}
 			p = append(p, strings.Join([]string{"r", optHex(e.owner), optHex(e.ttl), cl, ord, Itoa(int(e.typ)), rd}, ","))
 		}
@@ -372,7 +376,12 @@ func genZone(r *Rng, haveDefault bool) []entry {
 	for i := 0; i < n; i++ {
 		switch k := r.Intn(10); {
 		case k == 0:
+			// (finding C06/directive-argument-mnemonic: "$ORIGIN a" is rejected because the
+			// lexer reads "a" as the type A; the general stream avoids such arguments)
 			nm := relNames[r.Intn(len(relNames))]
+			for mnemonicLike(nm) {
+				nm = relNames[r.Intn(len(relNames))]
+			}
 			if r.Intn(2) == 0 {
 				nm = absNames[r.Intn(len(absNames))]
 			}
@@ -445,6 +454,19 @@ func (s style) className(c uint16) string {
 		return s.caseOf(m)
 	}
 	return s.caseOf("CLASS") + Itoa(int(c))
+}
+
+// mnemonicLike: a bare word the lexer would turn into a type or class token
+// when no RR type has been seen on the line
+func mnemonicLike(w string) bool {
+	u := strings.ToUpper(w)
+	if _, ok := dns.StringToType[u]; ok {
+		return true
+	}
+	if _, ok := dns.StringToClass[u]; ok {
+		return true
+	}
+	return strings.HasPrefix(u, "TYPE") || strings.HasPrefix(u, "CLASS")
 }
 
 func needsQuotes(t string) bool {
@@ -530,17 +552,33 @@ func render(s style, origin string, es []entry) string {
 				words = append([]string{"\\#", Itoa(len(strings.Join(e.rd.hexs, "")) / 2)}, e.rd.hexs...)
 			}
 			paren := s.r.Intn(3) == 0
+			// (finding C06/comment-in-parentheses: a comment inside parentheses makes the
+			// lexer classify the following bare words again; renderings avoid that
+			// combination, probes() demonstrates it)
+			commentsOK := true
+			for _, w := range words {
+				if mnemonicLike(w) {
+					commentsOK = false
+				}
+			}
+			inSep := func() string {
+				for {
+					if x := s.inSep(); commentsOK || !strings.Contains(x, ";") {
+						return x
+					}
+				}
+			}
 			sb.WriteString(s.blank())
 			if paren {
 				sb.WriteString("(")
 				if s.r.Bool() {
-					sb.WriteString(s.inSep())
+					sb.WriteString(inSep())
 				}
 			}
 			for i, w := range words {
 				if i > 0 {
 					if paren {
-						sb.WriteString(s.inSep())
+						sb.WriteString(inSep())
 					} else {
 						sb.WriteString(s.blank())
 					}
@@ -549,7 +587,7 @@ func render(s style, origin string, es []entry) string {
 			}
 			if paren {
 				if s.r.Bool() {
-					sb.WriteString(s.inSep())
+					sb.WriteString(inSep())
 				}
 				sb.WriteString(")")
 			}
@@ -858,62 +896,34 @@ func includeStream(r *Rng, n int) {
 				break
 			}
 		}
-		for k := range after {
-			if after[k].kind == 'r' {
-				if after[k].owner == nil {
-					after[k].owner = ptr("aft")
-				}
-				break
-			}
-		}
 		incOriginArg := ""
 		if r.Bool() {
 			incOriginArg = pickName(r)
+			for mnemonicLike(incOriginArg) {
+				incOriginArg = pickName(r)
+			}
 		}
-		// denotation: before, then the file under its origin, then after with the includer's state
-		st0, ok0 := denote(origin, deflt, before)
+		// denotation: before; then the file under its own origin, without a previous
+		// owner, with the TTL sources of the includer; then after, in the includer's
+		// state as it was (origin and previous owner unchanged by the file)
+		recs0, st1, ok0 := denoteSt(dstate{origin: origin, deflt: deflt}, before)
 		if !ok0 {
 			continue
 		}
-		// state after "before": replay to find origin and TTL sources
-		cur := dstate{origin: origin, deflt: deflt}
-		for _, e := range before {
-			switch e.kind {
-			case 'o':
-				cur.origin = complete(cur.origin, e.arg)
-			case 't':
-				v, _ := ttlValue(e.arg)
-				cur.dollar = ptr(uint32(v))
-			case 'r':
-				if e.ttl != nil {
-					v, _ := ttlValue(*e.ttl)
-					cur.stated = ptr(uint32(v))
-				}
-			}
-		}
-		incOrigin := cur.origin
+		cur := st1
+		incOrigin := st1.origin
 		if incOriginArg != "" {
-			incOrigin = complete(cur.origin, incOriginArg)
+			incOrigin = complete(st1.origin, incOriginArg)
 		}
-		// the file inherits the TTL the includer would use for an omitted TTL
-		var inh *uint32
-		switch {
-		case cur.dollar != nil:
-			inh = cur.dollar
-		case cur.stated != nil:
-			inh = cur.stated
-		default:
-			inh = cur.deflt
-		}
-		innerRecs, ok1 := denoteWith(incOrigin, inh, cur.dollar != nil, inner)
+		innerRecs, _, ok1 := denoteSt(dstate{origin: incOrigin, dollar: st1.dollar, stated: st1.stated, deflt: st1.deflt}, inner)
 		if !ok1 {
 			continue
 		}
-		afterRecs, ok2 := denoteFrom(cur, before, after)
+		afterRecs, _, ok2 := denoteSt(st1, after)
 		if !ok2 {
 			continue
 		}
-		want := append(append(append([]rec{}, st0...), innerRecs...), afterRecs...)
+		want := append(append(append([]rec{}, recs0...), innerRecs...), afterRecs...)
 		incLine := "$INCLUDE inc.zone"
 		if incOriginArg != "" {
 			incLine += " " + incOriginArg
@@ -943,29 +953,33 @@ func includeStream(r *Rng, n int) {
 	}
 }
 
-// denoteWith: a file parsed with an inherited TTL (fromDollar: it came from a $TTL directive)
-func denoteWith(origin string, inh *uint32, fromDollar bool, es []entry) ([]rec, bool) {
-	if fromDollar {
-		pre := []entry{{kind: 't', arg: strconv.FormatUint(uint64(*inh), 10)}}
-		return denote(origin, nil, append(pre, es...))
+// ---------- probes for the two lexer deviations the streams avoid ----------
+
+func probes() {
+	run := func(text string) string {
+		c := cfgFor("example.org.", ptr(uint32(300)), text)
+		o := z.Run(c, 1)
+		z.EmitD("parse", c.Args(), o.Show())
+		return o.Show()
 	}
-	return denote(origin, inh, es)
-}
-
-// denoteFrom: the records of "after" when parsing continues in the includer
-func denoteFrom(cur dstate, before, after []entry) ([]rec, bool) {
-	all, ok := denote(cur.origin0(before), cur.deflt, append(append([]entry{}, before...), after...))
-	if !ok {
-		return nil, false
+	// the same record with and without a comment inside the parentheses
+	with := run("a 5 TXT ( x ; comment\n ns )\n")
+	without := run("a 5 TXT ( x \n ns )\n")
+	stat["probe_checked"]++
+	if with != without {
+		Viol("C06/comment-in-parentheses/rdata-word-retyped",
+			fmt.Sprintf("a comment inside parentheses changes the result: without it %s, with it %s", without, with),
+			map[string]any{"text_hex": Hs("a 5 TXT ( x ; comment\n ns )\n")})
 	}
-	pre, _ := denote(cur.origin0(before), cur.deflt, before)
-	return all[len(pre):], true
+	// a relative $ORIGIN argument that spells a type mnemonic
+	got := run("$ORIGIN a\nb 5 A 192.0.2.1\n")
+	want := showRecs([]rec{{"b.a.example.org.", dns.TypeA, 1, 5, "Ac0000201"}})
+	stat["probe_checked"]++
+	if got != want {
+		Viol("C06/directive-argument-mnemonic", fmt.Sprintf("$ORIGIN a: want %s got %s", want, got),
+			map[string]any{"text_hex": Hs("$ORIGIN a\nb 5 A 192.0.2.1\n")})
+	}
 }
-
-// origin0 is the origin the run started with (kept in the first $ORIGIN-free prefix)
-func (d dstate) origin0(before []entry) string { return startOrigin }
-
-var startOrigin string
 
 // ---------- unit cases ----------
 
@@ -1015,6 +1029,7 @@ func runC06(r *Rng, tier string, n int) {
 	z.InitWorkDir()
 	defer z.CleanupWorkDir()
 	unitCases(r)
+	probes()
 	shapeStream()
 	semanticStream(r, 260*mult, 6)
 	generateStream(r, 120*mult)
